@@ -28,6 +28,6 @@ PROP = {'technique': 'property-based testing (rapid): generated rule files and l
                  'engine level: the outbound list is non-empty, names distinct, and "direct" is used in rules only when the list overrides '
                  'it (the built-in direct outbound would dial out)'],
  'tests': [{'name': 'TestVerifC09_Grid', 'unit': ACL, 'kind': 'plain'},
-           {'name': 'TestVerifC09_Match', 'unit': ACL, 'quick': 8000, 'shards': 4, 'thorough': 60000, 'shards_thorough': 12},
-           {'name': 'TestVerifC09_Engine', 'unit': ENG, 'quick': 6000, 'shards': 2, 'thorough': 40000, 'shards_thorough': 8},
-           {'name': 'TestVerifC09_EngineEvict', 'unit': ENG, 'quick': 250, 'shards': 2, 'thorough': 1500, 'shards_thorough': 12}]}
+           {'name': 'TestVerifC09_Match', 'unit': ACL, 'quick': 8000, 'shards': 4, 'timeout_quick': 1800, 'thorough': 60000, 'shards_thorough': 12},
+           {'name': 'TestVerifC09_Engine', 'unit': ENG, 'quick': 6000, 'shards': 2, 'timeout_quick': 1800, 'thorough': 40000, 'shards_thorough': 8},
+           {'name': 'TestVerifC09_EngineEvict', 'unit': ENG, 'quick': 250, 'shards': 2, 'timeout_quick': 1800, 'thorough': 1500, 'shards_thorough': 12}]}
